@@ -115,7 +115,13 @@ func init() {
 			m.EStr("a"), m.EStr("ab"), m.EStr("b"), m.EStr(""), m.EBool(true), m.EBool(false), m.ENull(),
 			m.EArr(m.ENum(1), m.ENum(2)), m.EArr(m.EStr("a")), m.EArr(),
 			&m.E{K: "hash", KS: []*m.E{m.EName("k0")}, A: []*m.E{m.ENum(1)}}, m.EName("i0"), m.EName("s0"), m.EName("an0")}
-		ctx := []*m.CtxVar{{Name: "i0", V: m.Num(4), Carrier: "int"}, {Name: "s0", V: m.Str("abc")}, {Name: "an0", V: m.Arr(m.Num(2), m.Num(4)), Carrier: "slice"}}
+		names := m.Val{K: m.KHash}
+		names.HashSet("1", m.Str("one"))
+		names.HashSet("2", m.Str("two"))
+		names.HashSet("10", m.Str("ten"))
+		ctx := []*m.CtxVar{{Name: "i0", V: m.Num(4), Carrier: "int"}, {Name: "s0", V: m.Str("abc")}, {Name: "an0", V: m.Arr(m.Num(2), m.Num(4)), Carrier: "slice"},
+			// hashes with integer keys, as a hash, and as Go maps keyed by integer types
+			{Name: "hn0", V: names}, {Name: "hn1", V: names, Carrier: "map:int:str"}, {Name: "hn2", V: names, Carrier: "map:uint8:str"}, {Name: "hn3", V: names, Carrier: "map:int64:any"}}
 		one := func(e *m.E) *progCase {
 			return &progCase{P: &m.Program{Env: "core", Loader: "memory", Entry: "main", Ctx: ctx,
 				Tpls: []*m.Tpl{{Name: "main", Body: []*m.N{m.NPrint(m.ECall("cat", e))}}}}}
@@ -178,6 +184,10 @@ func init() {
 			}
 		}
 		forms = append(forms, m.EBin("in", m.EStr("b"), m.EName("s0")), m.EBin("in", m.EName("s0"), m.EStr("xabcx")))
+		for _, hn := range []string{"hn0", "hn1", "hn2", "hn3"} {
+			forms = append(forms, m.EAttr(m.EName(hn), "1"), m.EIdx(m.EName(hn), m.ENum(2)), m.EIdx(m.EName(hn), m.EStr("10")), m.EIdx(m.EName(hn), m.EName("i0")),
+				m.EIdx(m.EName(hn), m.EBin("~", m.EStr("1"), m.EStr("0"))), m.EBin("~", m.EAttr(m.EName(hn), "2"), m.EAttr(m.EName(hn), "10")))
+		}
 		for _, f := range forms {
 			idx++
 			if c.Mine(idx) && !grid.Check(c, one(f)) {
